@@ -39,13 +39,16 @@ PROPS = {
     ),
     'C12': dict(
         title='Interfaces have a total, hash-consistent, process-independent order',
-        contracts=['C12_order'], falsifier='C12', modes=['py', 'c'], level='proof',
+        contracts=['C12_order'], cfun=['C12_c'], falsifier='C12', modes=['py', 'c'], level='proof',
         level_text='Python reference: _compare, __lt__/__le__/__gt__/__ge__, InterfaceBase.__eq__/__ne__/__hash__ are verified '
                    'from their real bodies against one key-comparison specification; irreflexivity, trichotomy, transitivity, '
-                   '<= as < or ==, hash consistency are proved as lemmas over that specification for all names. The C '
-                   'rich-compare/hash twins are compared with the same specification bounded (fixed pool incl. non-ASCII '
-                   'names), labelled bounded, until the C front end covers them.',
-        level_note='str comparison enters only as a strict total order (axioms); __name__/__module__ are str; C twin bounded.',
+                   '<= as < or ==, hash consistency are proved as lemmas over that specification for all names. The C twin '
+                   'IB_richcompare is verified from the clang AST of the real file against the SAME specification (functional C front '
+                   'end: every path, CPython API by functional models): identical object, None, InterfaceBase instances, foreign '
+                   'objects with and without __name__/__module__, NULL iff an exception is set. The C hash twin and the end-to-end '
+                   'behaviour are compared with the specification bounded (pool incl. Latin-1/BMP/astral names).',
+        level_note='str comparison enters only as a strict total order (axioms); __name__/__module__ are str; CPython API models '
+                   'trusted (A2); C hash twin bounded.',
     ),
     'C04': dict(
         title='Adapter lookup returns the most specific applicable registration',
